@@ -34,6 +34,8 @@ void harness(void)
 		size_t n2 = lha_null_read(&dec, out);
 		if (k < n2) CHECK(out[k] == data[n + k], "next call continues with the following bytes");
 		CHECK(n + n2 <= slen, "never invents data");
+		CHECK((n2 == 0) == (n == slen), "a short count from the callback is not the end: the next call delivers the following bytes until the callback itself returns 0");
+		if (n < slen && n2 > 0 && shorts[0] != 0) WITNESS("short first read, data continues");
 	}
 	CHECK(lha_null_decoder.max_read == BLOCK_READ_SIZE && lha_null_decoder.read == lha_null_read
 	      && lha_null_decoder.init == lha_null_init && lha_null_decoder.extra_size == sizeof(LHANullDecoder), "decoder type parameters");
